@@ -10,7 +10,8 @@ open Spec
 /-- The reasons for which one row is rejected, in terms of the status `pre` of the row's
     affiliate before the row (shares held, all-affiliate balance, cost base):
     * Sell: more shares than the affiliate (or all affiliates together) hold; a declared superficial
-      loss on a sale with no loss; or, for a sale at a loss, a failure of the superficial-loss
+      loss on a sale with no loss (a sale at a gain, or any sale of a registered affiliate, which
+      has no capital gain or loss at all); or, for a sale at a loss, a failure of the superficial-loss
       computation (look-ahead finds a later over-sale, or the declared loss contradicts the computed
       one — see `C04_sfl_error_iff`);
     * RoC: registered affiliate, or larger than the cost base;
@@ -24,6 +25,7 @@ def RowOffence (t : Tracker) (tx : Tx) (past future : List Tx) : Prop :=
   | .buy .. => False
   | .sell sh px comm rate crate spec =>
     pre.shares - sh < 0 ∨ pre.all - sh < 0 ∨
+    (perShareAcb pre = none ∧ spec.isSome = true) ∨
     (∃ aps, perShareAcb pre = some aps ∧
       ((px * sh * rate - comm * commRate rate crate - aps * sh < 0 ∧
           ∃ f, deltaSflInfo t tx sh spec (px * sh * rate - comm * commRate rate crate - aps * sh) past future = .error f) ∨
@@ -70,9 +72,9 @@ theorem C04_row_rejected_iff {U : List Aff} {t : Tracker} (hw : TrackerWFOn U t)
       · simp [h1, h2]
       · simp only [h1, h2, if_false, false_or]
         cases hp : perShareAcb (t.nextPre tx.aff) with
-        | none => simp
+        | none => cases hs : spec.isSome <;> simp
         | some aps =>
-          simp only [Option.some.injEq, exists_eq_left']
+          simp only [Option.some.injEq, exists_eq_left', reduceCtorEq, false_and, false_or]
           by_cases hg : px * sh * rate - comm * commRate rate crate - aps * sh < 0
           · simp only [hg, if_true, true_and, not_true_eq_false, false_and, or_false]
             cases hd : deltaSflInfo t tx sh spec (px * sh * rate - comm * commRate rate crate - aps * sh) past future with
